@@ -36,6 +36,7 @@ def _bs_units():
 
 
 HARNESSES = {
+    "variant": dict(units=[dict(src="variant.cpp")]),
     "bitset": dict(units=_bs_units()),
     "fstring": dict(units=_fs_units()),
     "sysenv": dict(units=[dict(src="sysenv.cpp")], ldflags=["-Wl,--wrap=readlink"]),
@@ -148,6 +149,33 @@ PROPS["C03"] = dict(
                  "the property does not speak about allocation failure: after a delivered bad_alloc the only requirement kept is that the object can be assigned to and destroyed; its value is then re-established by the harness"],
 )
 
+PROPS["C05"] = dict(
+    level="fault_enumeration",
+    batches=dict(
+        quick=[dict(harness="variant", build="san", runs=150000, wall_cap=600),
+               dict(harness="variant", build="san", runs=6000, offset=150000, enumerate=True, wall_cap=600)],
+        thorough=[dict(harness="variant", build="san", runs=1000000, wall_cap=2400),
+                  dict(harness="variant", build="san", runs=40000, offset=1000000, enumerate=True, wall_cap=2400),
+                  dict(harness="variant", build="plain", runs=400000, offset=1040000, enumerate=True, wall_cap=2400),
+                  dict(harness="variant", build="plain", runs=200, offset=1440000, valgrind=True, workers=8, wall_cap=1200)],
+    ),
+    rule=("a case is one execution of a seeded history (1-15 operations) over three variant<int, NC, TC, TM, TM2, std::string> objects (NC: nothrow copy+move, TC: throwing copy, TM/TM2: throwing move; "
+          "all lifetime-tracked), one variant over closure wrappers (xget) and one with 34 alternatives. Random batches attach 'throw at the k-th constructor/assignment of this step' to steps; "
+          "enumerate batches first run each history fault-free, counting the fault points reached in every step, then re-execute it once per (step, k) with exactly that throw injected. "
+          "Oracles after every step: lifetime registry (construct once, no use after destruction, destroy once, live objects == objects held), every observer "
+          "(index, valueless_by_exception, holds_alternative, get<I>, get<T>, get_if, visit) agrees with the model; without a throw the model is std::variant's result; "
+          "after a throw each variant is valueless or holds its pre-call value or the requested one, sources of copies are unchanged. "
+          "Non-trivial: at least two state-changing steps and, if a fault is attached, it fired. Distinct: distinct run digests."),
+    probes=["valueless_reached", "valueless_by_emplace", "valueless_by_assignment", "valueless_by_swap", "valueless_moved_or_copied", "valueless_assigned_from",
+            "valueless_compared", "valueless_visited", "swap_threw", "swap_with_valueless", "same_index_assignment_threw", "self_assignment", "self_swap",
+            "three_variant_visit", "more_than_32_alternatives_dispatch", "constructor_threw", "moved_from_alternative"],
+    components=dict(real=["include/xtl/xvariant_impl.hpp (mpark variant: construction, assignment, emplace, swap, relational operators, switch-based visitation, hash)", "include/xtl/xvariant.hpp (xget)"],
+                    stub=["lifetime-tracked alternative types with a fault point in every constructor and assignment", "recording visitors", "dirty, red-zoned arena memory under every variant"]),
+    assumptions=["the table-based visitation path is compiled out on GCC/Clang in C++14 (MPARK_VARIANT_SWITCH_VISIT) and cannot be reached here",
+                 "the tracked types themselves give the strong guarantee (they throw before modifying anything), so every anomaly is the variant's",
+                 "a moved-from alternative keeps its identity and is marked; the model accepts a source of a move being unchanged or moved-from"],
+)
+
 PENDING = "claimed in DESIGN.md section 4 but its harness is not built yet in this tree; listed here until the check exists"
 NOT_APPLICABLE = {
     "C04": "pure function of the operands of one call (presence flags and values); no history, fault position, schedule or environment to simulate (DESIGN.md 5)",
@@ -182,6 +210,12 @@ MANIFEST_TEXT = {
         design_ref="4.3",
         note="sampled histories; allocation failures are injected but only object usability is required after them because the property does not mention them",
         technique="deterministic simulation: seeded operation histories with several handles on shared memory against a reference model, allocator fault injection, dirty caller memory",
+    ),
+    "C05": dict(
+        text="fault enumeration inside seeded histories: every sampled history over three variants with trivial, nothrow-movable, throwing-copy and throwing-move alternatives is executed fault-free and then once for every (step, k) with a throw injected at the k-th constructor/assignment reached in that step; a lifetime registry checks construct-once/destroy-once/no-use-after-destruction, every observer must agree with the model, results without a throw are std::variant's, results after a throw satisfy the property's disjunction (valueless, pre-call value, or requested value)",
+        design_ref="4.4",
+        note="histories are sampled, fault positions inside each sampled history are enumerated; the table-based visitation path does not exist on this toolchain",
+        technique="deterministic simulation with fault injection: injected throws at enumerated fault points, lifetime registry, reference model of std::variant semantics",
     ),
     "C14": dict(
         text="hash coherence across simulated histories: std::hash of every fixed string equals the reference MurmurHash64A of its characters after every step, equal contents reached by different histories (different stale bytes), in different layouts and capacities hash equally; the byte hashes are additionally evaluated on the buffers the simulation produces at every alignment in exact-size blocks against an independent reference (that half is evaluation of a pure function on simulated states and is reported under its own counter)",
